@@ -57,7 +57,10 @@ impl<'a> Sim<'a> {
             f(svc)
         });
         match r {
-            Ok(v) => Some(v),
+            Ok(v) => {
+                self.check_timestamps(node);
+                Some(v)
+            }
             Err(p) => {
                 self.panic(node, trig, p);
                 None
